@@ -16,7 +16,9 @@ RULE = (
     "lane lines, and star-power / track-event lines inserted at arbitrary positions including between "
     "the N lines of one tick and before/after all notes. Oracle: the sorted distinct ticks carrying N "
     "lines; one event per such tick, strictly increasing, note.value == the 5-bit tuple of written "
-    "lanes (open -> all zero). Non-trivial iff >= 3 ticks and (chord of >= 3 lanes, or gap 1, or a "
+    "lanes (open -> all zero). part bigfile: a 200 000-character section parsed at 24 (48) character-by-character "
+    "shifts of its position in the file (block boundaries of any size up to 128 KiB fall on and inside lines). "
+    "Non-trivial iff >= 3 ticks and (chord of >= 3 lanes, or gap 1, or a "
     "chord as last group, or an S/E line inside a tick group); distinct = distinct section text."
 )
 ASSUMPTIONS = [
@@ -181,7 +183,43 @@ def strat_sections(ctx: Ctx):
     return _sections(ctx.pick(30, 200))
 
 
+def bigfile_cases(ctx: Ctx):
+    """Sections of ~9000 lines (~200 000 characters) whose position in the file is shifted character by
+    character (a [Song] Name of growing length): whatever block size the text might be read or framed in (up to
+    128 KiB), some shift puts a block boundary exactly on a line end, some inside a line, some inside a number."""
+    for shift in range(ctx.pick(24, 48)):
+        yield {"big": True, "shift": shift}
+
+
+def check_bigfile(ctx: Ctx, case) -> None:
+    shift = case["shift"]
+    items = []
+    for j in range(6000):
+        t = 1000 + j * 7
+        items.append([t, "N", j % 5, 0])
+        if j % 2 == 0:
+            items.append([t, "N", (j + 2) % 5, 0])
+        if j % 5 == 0:
+            items.append([t, "N", 6, 0])
+    exp = expected_notes(192, items)
+    lines = _lines(items)
+    text = T.chart_text(192, TEMPO, {HEADER: lines})
+    text = text.replace("  Resolution = 192\n", '  Name = "' + "x" * shift + '"\n  Resolution = 192\n', 1)
+    rc = {"big": True, "shift": shift, "chars": len(text)}
+    from cpverif.lib import L as _L
+    try:
+        chart = _L.parse(text)
+    except Exception as e:  # noqa: BLE001
+        ctx.fail("chart-parses", f"well-formed big chart rejected: {type(e).__name__}: {str(e)[:200]}", rc)
+        return
+    tr = T.get_track(chart, HEADER)
+    T.compare_notes(ctx, tr, exp, rc, {"ticks", "lanes"})
+    ctx.note(["big", shift], nontrivial=True, classes=["bigfile"],
+             sample={"shift": shift, "chars": len(text), "lines": len(lines)})
+
+
 PARTS: list[Part] = [
+    enum_part("bigfile", bigfile_cases, check_bigfile, {"quick": 8, "thorough": 16}),
     enum_part("table", table_cases, check_section, {"quick": 2, "thorough": 4}),
     hyp_part("sections", strat_sections, check_section, {"quick": 500, "thorough": 2500},
              {"quick": 6, "thorough": 16}),
